@@ -38,6 +38,7 @@ def opOfJson (j : Json) : Except String Op := do
   | "fork" => pure (.fork (← str 1) (← str 2) (← ostr 3) (← nat 4) (← ostr 5))
   | "delHead" => pure (.delHead (← str 1) (← str 2))
   | "dropHeads" => pure (.dropHeads (← str 1))
+  | "rmHead" => pure (.rmHead (← str 1) (← str 2))
   | "clearHeads" => pure (.clearHeads (← str 1))
   | "mainRestart" => pure (.mainRestart (← str 1) (← str 2) (← ostr 3))
   | "setFlowStatus" => pure (.setFlowStatus (← str 1) (← flowStatusOfString (← str 2)))
